@@ -69,7 +69,7 @@ Lemma some_inj {A} (a b : A) : Some a = Some b -> a = b. Proof. congruence. Qed.
 Definition qinfo_of (ing : bool) (p : value * bool * option str) : Analysis.qinfo :=
   let t := match fst (fst p) with VText _ => true | _ => false end in
   {| Analysis.qi_text := t; Analysis.qi_fixed := negb (ing && negb t && negb (snd (fst p)));
-     Analysis.qi_unit := snd p |}.
+     Analysis.qi_unit := snd p; Analysis.qi_value := abstract_value (fst (fst p)) |}.
 
 Lemma abs_value_is_text v :
   Events.pvalue_is_text (abstract_value v) = match v with VText _ => true | _ => false end.
@@ -78,7 +78,7 @@ Proof. destruct v; reflexivity. Qed.
 Lemma quantity_info_pq ing q : Analysis.quantity_info ing (abstract_quantity q) = qinfo_of ing (pq q).
 Proof.
   destruct q as [[v sp l] u qs]. unfold Analysis.quantity_info, Analysis.value_info, qinfo_of, pq, pqv, abstract_quantity, abstract_qvalue.
-  cbn [Events.pq_value Events.pq_unit Events.qv_value Events.qv_lock Analysis.qi_text Analysis.qi_fixed fst snd
+  cbn [Events.pq_value Events.pq_unit Events.qv_value Events.qv_lock Analysis.qi_text Analysis.qi_fixed Analysis.qi_value fst snd
        q_val q_unit qv qlock].
   rewrite abs_value_is_text, abs_otrimmed. reflexivity.
 Qed.
